@@ -298,6 +298,18 @@ def value_atoms(draw: t.Any, min_size: int = 0, max_size: int = 8) -> t.Tuple[st
             text.append("\\" + h)
             out.append(b)
             stats["esc"] += 1
+            if draw(st.integers(0, 5)) == 0:
+                # the *text* of that escape as literal value content, before or after it: an escaped backslash followed
+                # by the same two hex digits (a decoder that substitutes escapes in several passes re-reads it)
+                echo_t, echo_b = "\\5c" + h, b"\\" + h.encode()
+                if draw(st.booleans()):
+                    text.insert(len(text) - 1, echo_t)
+                    out[len(out) - 1:len(out) - 1] = echo_b
+                else:
+                    text.append(echo_t)
+                    out.extend(echo_b)
+                stats["esc"] += 1
+                stats["echo"] = stats.get("echo", 0) + 1
     return "".join(text), bytes(out), stats
 
 
